@@ -6,7 +6,7 @@ token lands where, read order, store order, read sets, out-of-window accesses) f
 2-4 (sampled 5-6) with pairwise distinct extents, tensors and unevaluated expressions, C++14 and C++17,
 CONTRACT_OPT default and -1, block-size macros 1..3 x V in {4,8,16} (+ the plain loop); K5 metafunction dump
 for all permutations of ranks 2-5; K4 real element types per ISA (intrinsic leaf kernels, guard pages)."""
-import itertools, random
+import itertools, random, re
 from vlib import core, symrun, flow
 
 PID = "C14"
@@ -75,6 +75,12 @@ def perm_groups(tier, seed):
                 ns = {2: None, 3: None, 4: None, 5: 3, 6: 1}[rank]
             else:
                 ns = {2: None, 3: None, 4: None, 5: 30 if ci % 4 == 0 else 8, 6: 4 if ci % 4 == 0 else 1}[rank]
+            if tier == "quick" and rank >= 5:
+                # one permutation of rank 5 and one of rank 6 on every code path this configuration reaches
+                for (kind, ex) in paths:
+                    p = tuple(rng.sample(range(rank), rank))
+                    calls.append(perm_call(rng.choice((4, 8)), kind, ex, p, rng.choice(SHAPES[rank])))
+                continue
             for p in perms_of(rank, rng, ns):
                 dims = rng.choice(SHAPES[rank])
                 use = paths if rank <= 4 else [rng.choice(paths)]
@@ -93,6 +99,12 @@ def meta_groups(tier, seed):
                 calls.append(meta_call(p, rng.choice(SHAPES[rank])))
         for p in perms_of(6, rng, 4 if tier == "quick" else 60):
             calls.append(meta_call(p, rng.choice(SHAPES[6])))
+        if std == "c++17":
+            # permute_mapped_index_t on arbitrary label packs (the explicit-output einsum calls it with the labels of the
+            # contraction result and of the requested output)
+            for _ in range(30 if tier == "quick" else 200):
+                rank = rng.randint(2, 6); labels = rng.sample(range(0, 15), rank); o = rng.sample(labels, rank)
+                calls.append("run_pmeta2<%s,%s>();" % (idx(labels), idx(o)))
         groups.append({"key": "meta/%s" % std, "header": HDR, "isa": "sse2", "std": std, "calls": calls})
     return groups
 
@@ -183,10 +195,10 @@ def real_groups(tier, seed):
     isas = ["sse2", "avx", "avx2", "avx512"] if tier == "quick" else core.ALL_ISAS
     variants = [(isa, [], "") for isa in isas]
     variants += [("avx512", ["-mno-avx512dq", '-DVR_TAG="-nodq"'], "-nodq"),
-                 ("avx2", ["-DFASTOR_TRANS_OUTER_BLOCK_SIZE=2", "-DFASTOR_TRANS_INNER_BLOCK_SIZE=2", '-DVR_TAG="-b2x2"'], "-b2x2")]
+                 ("avx2", ["-DFASTOR_TRANS_OUTER_BLOCK_SIZE=2", "-DFASTOR_TRANS_INNER_BLOCK_SIZE=2", '-DVR_TAG="-b2x2"'], "-b2x2"),
+                 ("avx512", ["-DFASTOR_TRANS_OUTER_BLOCK_SIZE=3", "-DFASTOR_TRANS_INNER_BLOCK_SIZE=2", '-DVR_TAG="-b3x2"'], "-b3x2")]
     if tier != "quick":
         variants += [("avx", ["-DFASTOR_TRANS_OUTER_BLOCK_SIZE=2", "-DFASTOR_TRANS_INNER_BLOCK_SIZE=2", '-DVR_TAG="-b2x2"'], "-b2x2"),
-                     ("avx512", ["-DFASTOR_TRANS_OUTER_BLOCK_SIZE=3", "-DFASTOR_TRANS_INNER_BLOCK_SIZE=2", '-DVR_TAG="-b3x2"'], "-b3x2"),
                      ("avx2", ["-DFASTOR_TRANS_OUTER_BLOCK_SIZE=1", "-DFASTOR_TRANS_INNER_BLOCK_SIZE=3", '-DVR_TAG="-b1x3"'], "-b1x3")]
     nrand = 3 if tier == "quick" else 14
     for vi, (isa, defs, tag) in enumerate(variants):
@@ -195,6 +207,16 @@ def real_groups(tier, seed):
         # quick tier: the full call set under sse2 / avx2 / avx512; under avx (its own 3x3 float and 8x8 double kernels) and
         # under the two re-dispatch configurations only the kernels and the blocked nest
         lean = tier == "quick" and (isa == "avx" or tag != "")
+        std17 = isa in ("avx2", "avx512", "sse42") and tag != "-nodq"
+        mb = re.match(r"-b(\d)x(\d)", tag)
+        if mb:
+            # non-square shapes around twice the block (2*nC*V x 2*nR*V) for float, double and both complex types
+            nr_, nc_ = int(mb.group(1)), int(mb.group(2))
+            vbits = 512 if isa == "avx512" else 256
+            for t, esz in (("float", 4), ("double", 8), ("std::complex<float>", 8), ("std::complex<double>", 16)):
+                V = vbits // 8 // esz
+                for (m, n) in [(2 * V * nc_ + 1, 2 * V * nr_ - 1), (2 * V * nc_ - 1, 2 * V * nr_ + 3), (V * nc_, 2 * V * nr_), (2 * V * nc_ + 3, V * nr_ + 1)]:
+                    calls.append("run_treal<%s,%d,%d>(%du,%d);" % (t, m, n, sd, (m + n) % 2))
         for t in ("float", "double"):
             for (m, n) in LEAF[t]:
                 for place in (0, 1):
@@ -223,13 +245,25 @@ def real_groups(tier, seed):
                 calls.append("run_tapi<%s,%d,%d,%d>(%du);" % (t, rng.randint(1, 9), rng.randint(1, 9), api, sd))
             calls.append("run_ctbatch<%s,%d,%d>(%du);" % (t, rng.randint(2, 3), rng.randint(2, 5), sd))
         if not tag and not lean:
+            for t in ("float", "double", "int32_t", "std::complex<double>"):
+                rank = rng.choice((3, 4)); p = tuple(rng.sample(range(rank), rank))
+                calls.append("run_pexpr<%s,%d,%s,%s>(%du);" % (t, rng.randint(0, 1), idx(p), ",".join(map(str, rng.choice(SHAPES[rank]))), sd))
+                calls.append("run_pview<%s,%d,%d>(%du);" % (t, rng.randint(2, 9), rng.randint(2, 9), sd))
+                calls.append("run_tbatch4<%s,%d,%d,%d>(%du);" % (t, rng.randint(1, 3), rng.randint(2, 3), rng.choice((2, 3, 4, 8)), sd))
+                if std17:
+                    # explicit-output einsum: one pure relabelling with non-contiguous labels, one transposed product
+                    rank = rng.choice((3, 4)); labels = rng.sample(range(1, 12), rank); o = rng.sample(labels, rank)
+                    while o == labels: o = rng.sample(labels, rank)
+                    calls.append("run_einsum_o1<%s,%s,Fastor::OIndex<%s>,%s>(%du);" % (t, idx(labels), ",".join(map(str, o)), ",".join(map(str, rng.choice(SHAPES[rank]))), sd))
+                    if t != "std::complex<double>":
+                        calls.append("run_einsum_o2<%s,%d,%d,%d>(%du);" % (t, rng.randint(2, 7), rng.randint(2, 7), rng.randint(2, 7), sd))
             for t in RTYPES:
                 for _ in range(2 if tier == "quick" else 8):
                     rank = rng.choice((2, 3, 3, 4))
                     p = tuple(rng.sample(range(rank), rank))
                     kind, ex = rng.choice(ALL_PATHS)
                     calls.append("run_preal<%s,%d,%d,%s,%s,%s>(%du);" % (t, kind, ex, idx(p), idx(inv(p)), ",".join(map(str, rng.choice(SHAPES[rank]))), sd))
-        groups.append({"key": "real/%s%s" % (isa, tag), "header": RHDR, "isa": isa, "std": "c++17" if vi % 2 else "c++14",
+        groups.append({"key": "real/%s%s" % (isa, tag), "header": RHDR, "isa": isa, "std": "c++17" if std17 else "c++14",
                        "opt": "-O2", "defs": defs, "calls": calls})
         if tag in ("-nodq", "-b2x2"):
             # compile acceptance of the float leaf dispatch: a unit with float transposes only (a unit in which every
@@ -240,6 +274,8 @@ def real_groups(tier, seed):
 
 def nontrivial(inp, mo):
     d = symrun.kv(inp)
+    if inp.startswith("pmeta2"):
+        return d.get("R") != d.get("O")
     if inp.startswith("permute") or inp.startswith("pmeta"):
         p = d.get("p", "").split(",")
         return p != sorted(p, key=int)
@@ -326,6 +362,9 @@ def sym_call_of(inp):
         co = None if d["co"] == "d" else d["co"]
         return {"key": "replay", "header": HDR, "isa": d["cfg"], "std": std, "defs": cfg_defs(co),
                 "calls": [perm_call(int(d["sz"]), 1 if d["kind"] == "legacy" else 0, int(d["ex"]), p, dims)]}
+    if cmd == "pmeta2":
+        return {"key": "replay", "header": HDR, "isa": d["cfg"], "std": "c++17",
+                "calls": ["run_pmeta2<%s,%s>();" % (idx(d["R"].split(",")), idx(d["O"].split(",")))]}
     if cmd == "pmeta":
         p = tuple(int(x) for x in d["p"].split(","))
         dims = tuple(int(x) for x in d["dims"].split(","))
